@@ -322,8 +322,15 @@ class World:
                     rec["result"] = await fn()
                     rec["t_ret"] = self.loop._vtime
                     rec["seq_ret"] = self.trace.add("user.return", k=st["op"], id=cid, r=_p(rec["result"]))
-                except asyncio.CancelledError:
-                    raise
+                except asyncio.CancelledError as exc:
+                    me = asyncio.current_task(self.loop)
+                    if me is None or me.cancelling() or getattr(self, "tearing_down", False) or self.loop.is_closed() or not self.loop.is_running():
+                        raise
+                    # nobody cancelled this caller: the call itself let a CancelledError escape (a cancelled shared future)
+                    rec["t_ret"] = self.loop._vtime
+                    rec["exc"] = exc
+                    rec["seq_ret"] = self.trace.add("user.raise", k=st["op"], id=cid, e="CancelledError (caller not cancelled)")
+                    return
                 except adapter.AdapterError:
                     raise
                 except BaseException as exc:  # noqa: BLE001
@@ -531,6 +538,7 @@ class World:
         """A connection subscriber on the bare socket that takes a while over the connected=True notification (virtual seconds
         of work, as an application that greets the console and updates its own state would), and may fail at the end of it."""
         work = float(step.get("work", 0.0))
+        work_down = float(step.get("work_down", 0.0))  # ... and over the connected=False notification
         raises = bool(step.get("raises", False))
         name = step.get("name", "slowconn")
 
@@ -538,6 +546,8 @@ class World:
             self.trace.add("sub.call", k=name, args=(connected,))
             if connected and work:
                 await asyncio.sleep(work)
+            if not connected and work_down:
+                await asyncio.sleep(work_down)
             if connected and raises:
                 raise RuntimeError(f"connection subscriber {name} fails")
 
@@ -780,6 +790,31 @@ class World:
         """The next accepted connection is reset by the peer right away (or `delay` later)."""
         self.net.fin_new_links.append(("rst", step.get("delay", 0.0)))
 
+    def op_sched_at_timer(self, step) -> None:
+        """The step `then` is carried out at the instant (plus `delta`) at which the earliest loop timer due within [lo, hi]
+        falls due - a timer of the client (a heartbeat deadline, a retry delay) whose exact instant depends on the run so far.
+        Which of the two runs first within that instant is the loop's ordinary tie draw."""
+        lo, hi = float(step["lo"]), float(step["hi"])
+        due = [h._when for h in self.loop.pending_timers() if lo <= h._when <= hi]
+        self.trace.add("sched.at_timer", found=len(due), when=(min(due) if due else None))
+        if not due:
+            return
+        then = dict(step["then"])
+        self.net.fired("sched.call_at_client_timer")
+        self.loop.sim_at(min(due) + float(step.get("delta", 0.0)), self._step, then)
+
+    def op_net_at_client_close(self, step) -> None:
+        """The step `then` is carried out in the loop pass in which the client next closes a transport (a reset of its own, say),
+        made runnable ahead of (order "before") or behind the transport's connection_lost callback."""
+        then = dict(step["then"])
+        self.net.at_client_close.append((step.get("order", "before"), lambda: self._step(then)))
+
+    def op_net_before_accept(self, step) -> None:
+        """The step `then` is carried out when the next accepted connection attempt is about to complete; the attempt then
+        completes `passes` loop passes later."""
+        then = dict(step["then"])
+        self.net.before_accept.append((int(step.get("passes", 1)), lambda: self._step(then)))
+
     def op_net_stall_next(self, step) -> None:
         self.net.stall_new_links.append(step["duration"])
 
@@ -844,6 +879,8 @@ class World:
         self.net.fates.clear()
         self.net.stall_new_links.clear()
         self.net.fin_new_links.clear()
+        self.net.before_accept.clear()
+        self.net.at_client_close.clear()
         for link in self.net.links:
             if link.transport is not None and link.transport._stalled:
                 link.transport._set_stall(False)
